@@ -526,7 +526,10 @@ class KeyCache:
                 l1_key=l1_seed,
                 l2_key=b"",
             )
-            return self._seed_keys.setdefault(root_key_id, {}).setdefault(target_sd, {}).setdefault(l0, gke)
+            # Any existing seed key for this L0 does not cover the requested
+            # L1/L2 so replace it with the root derived key which covers all.
+            self._seed_keys.setdefault(root_key_id, {}).setdefault(target_sd, {})[l0] = gke
+            return gke
 
         return None
 
